@@ -97,7 +97,23 @@ class Prepared(object):
             f.append(('ctxlist', '\n'.join(n.key for n in self.ctxlist)))
         return f
 
-    def call(self, drv, expr, only='g', pattern=False):
+    def call(self, ctx, expr, only='g', pattern=False):
+        """ctx: runner.Ctx.  An abort in an assertion that is a recorded Debug-configuration finding (field
+        "fallback": "ndebug" in known_findings.jsonl) is answered by the NDEBUG sanitizer build instead, so that the
+        case is still judged (DESIGN 2.7 point 6)."""
+        from .drv import DriverCrash, crash_signature
+        try:
+            return self._call(ctx.drv, expr, only, pattern)
+        except DriverCrash as e:
+            sig = 'crash:' + crash_signature(e.stderr)
+            kf = ctx.findings.match(ctx.prop.ID, sig) or ctx.findings.match('C03', sig)
+            if kf is None or kf.get('fallback') != 'ndebug':
+                raise
+            ctx.known_seen[kf['id']] += 1
+            ctx.counters['fallback:ndebug'] += 1
+            return self._call(ctx.drv_flavor('ndebug'), expr, only, pattern)
+
+    def _call(self, drv, expr, only='g', pattern=False):
         kw = dict(doc=self.case['xml'].encode('utf-8'), expr=expr, ctx=self.ctx.key, only=only, docform=self.case.get('docform', 'native'))
         if pattern:
             kw['pattern'] = 1
